@@ -6,7 +6,7 @@ import BumpProof.Lemmas.MemLive
 
 set_option linter.unusedSimpArgs false
 
-namespace Arena
+namespace Arena.Mem
 open Rs
 
 /-- the ghost fields an allocation path never touches -/
@@ -242,7 +242,7 @@ theorem MemExt.getElem? {s t : State} (h : MemExt s t) {j : Nat} {c : Chunk} (hc
     ∃ c', t.chunks[j]? = some c' ∧ c'.base = c.base ∧ c'.size = c.size := by
   obtain ⟨e, h⟩ := h
   have hlt : j < s.chunks.length := (List.getElem?_eq_some_iff.mp hc).1
-  have h1 : (memOf t)[j]? = some c.cell := by
+  have h1 : (memOf t)[j]? = some c.memCell := by
     rw [h, List.getElem?_append_left (by unfold memOf; simpa using hlt)]
     unfold memOf
     simp only [List.getElem?_map, hc, Option.map_some]
@@ -677,4 +677,4 @@ theorem stepCore_scopeExit_memOf {cfg : Cfg} {g g' : GState} {out : Out}
         exact (show memOf (killFrom { s' with frames := _ } _) = memOf s' from rfl).trans (resetTo_memOf hs')
     · cases h
 
-end Arena
+end Arena.Mem
